@@ -182,6 +182,8 @@ func genericChecks(cl *fakecluster.Cluster, clientID string, fail func(sig, form
 	return true
 }
 
+const writeBaseMs = int64(1_700_000_000_000)
+
 // The Conn adds the fixed size of an empty fetch response to the byte limits it was given (conn.go fetchMinSize), so that
 // a message of exactly MaxBytes fits: the limits on the wire are the requested ones plus at most this allowance.
 const allowance = 256
@@ -302,7 +304,7 @@ func runConnRequests(tb ev.TB, c connCase) (labels []string, nontrivial bool) {
 		case "write":
 			var msgs []kafka.Message
 			for i, m := range op.Msgs {
-				km := kafka.Message{Value: []byte(strings.Repeat("x", m.ValueLen))}
+				km := kafka.Message{Value: []byte(strings.Repeat("x", m.ValueLen)), Time: time.UnixMilli(writeBaseMs + int64(oi)*1000 + int64(i)*7)}
 				if m.KeyLen >= 0 {
 					km.Key = []byte(strings.Repeat("k", m.KeyLen))
 				}
@@ -478,13 +480,33 @@ func runConnRequests(tb ev.TB, c connCase) (labels []string, nontrivial bool) {
 				fail(sig("fields"), "op %d: Produce v%d for %q %v, want t0/1", oi, ex.Version, name, ps)
 				return
 			}
-			if rs, _ := ps[0]["RecordSet"].(*refcodec.RecordSet); rs == nil || len(rs.AllRecords()) != len(op.Msgs) {
+			rs, _ := ps[0]["RecordSet"].(*refcodec.RecordSet)
+			if rs == nil || len(rs.AllRecords()) != len(op.Msgs) {
 				n := -1
 				if rs != nil {
 					n = len(rs.AllRecords())
 				}
 				fail(sig("records"), "op %d: Produce v%d carries %d records, WriteMessages was given %d", oi, ex.Version, n, len(op.Msgs))
 				return
+			}
+			for i, rec := range rs.AllRecords() {
+				m := op.Msgs[i]
+				wantTs := writeBaseMs + int64(oi)*1000 + int64(i)*7
+				wantKey := -1
+				if m.KeyLen >= 0 {
+					wantKey = m.KeyLen
+				}
+				gotKey := len(rec.Key)
+				if rec.KeyNull {
+					gotKey = -1
+				} else if wantKey == -1 && gotKey == 0 {
+					gotKey = -1 // message sets cannot tell a nil key from an empty one on this path (C05's business)
+				}
+				if rec.Timestamp != wantTs || len(rec.Value) != m.ValueLen || (gotKey != wantKey && !(wantKey == 0 && gotKey == -1)) {
+					fail(sig("record-fields"), "op %d: Produce v%d (codec %d) record %d carries timestamp %d, key of %d and value of %d bytes; message %d was given time %d ms, key %d, value %d bytes",
+						oi, ex.Version, op.Codec, i, rec.Timestamp, gotKey, len(rec.Value), i, wantTs, wantKey, m.ValueLen)
+					return
+				}
 			}
 		case "createTopics":
 			ex := find(19)
